@@ -61,6 +61,29 @@ def mask_chars(lo, hi):
     return h
 
 
+UNUSUAL = ['\n', '\r', '\\', '*', ' ', '\x00', '\xe9', '$', '^', '.', '\t', '0']
+
+
+def mask_unusual():
+    """mask() on card numbers that contain one unusual character at any position (the property covers arbitrary characters)"""
+    def h():
+        from .pinmods import P
+        card = P().card
+        n = choose('n', [10, 11, 13, 16, 19, 25])
+        ch = choose('char', UNUSUAL)
+        pos = choose('pos', list(range(n)))
+        mc = choose('mask', ['*', '#'])
+        digits = ''.join(str((i * 7 + 3) % 10) for i in range(n))
+        v = digits[:pos] + ch + digits[pos + 1:]
+        rp = {'kind': 'maskdigits', 'args': {'digits': v, 'mask': mc}}
+        with guard('mask', 'C16/exception', rp):
+            out = card.mask(v, mc)
+        ok = len(out) == n and out[:6] == v[:6] and out[n - 4:] == v[n - 4:] and out[6:n - 4] == mc * (n - 10)
+        require(ok, 'mask(%r) -> %r' % (v, out), key='C16/mask', replay=rp)
+        return {'sample': {'n': n, 'char': repr(ch), 'pos': pos}, 'replay': rp}
+    return h
+
+
 def typed_processor(proc):
     """PAN / PAN-PREFIX on a variable-length element that also has a numeric python type: concrete card numbers from a family"""
     PANS = ['4564320012', '45643200123', '4564320012321122', '5111111111112234', '4111111111111111111', '1234567890123456789']
@@ -160,6 +183,8 @@ def obligations(tier):
            Ob('mask/41..%d' % (200 if q else 999), mask_fn(41, 200 if q else 999), 120, 'longer card numbers', _funcs)]
     obs.append(Ob('mask/digits/10..19', mask_chars(10, 19 if q else 24), 600,
                   'card numbers of length 10..%d as strings of symbolic digit characters (every digit value at every position): catches content-dependent masking' % (19 if q else 24), _funcs))
+    obs.append(Ob('mask/unusual-characters', mask_unusual(), 120,
+                  'card numbers of length 10/11/13/16/19/25 with one unusual character (newline, backslash, NUL, non-ASCII, regex metacharacters ...) at every position', _funcs))
     for proc in ('PAN', 'PAN-PREFIX'):
         obs.append(Ob('processor-typed/%s' % proc, typed_processor(proc), 120,
                       '%s on DE2/DE32/DE100 combined with python types none/string/int/long; concrete card numbers from a family (10..19 digits, repeated digits)' % proc, _funcs))
